@@ -300,7 +300,7 @@ def est_paths(t):
         return est_paths(t[2])
     if k == "subst":
         b = est_paths(t[4])
-        return b ** (1 + t[3] * 2)
+        return min(b ** (1 + t[3] * 2), 150) if b <= 4 else b ** (1 + t[3] * 2)
     return 1
 
 
@@ -342,6 +342,11 @@ def gen_tree(rng, depth):
             tbl.append([gens.q(v), ["reroll"]])
         elif q < 0.35:
             tbl.append([gens.q(v), ["out", gens.q(rng.randint(0, 9))]])
+    if rng.random() < 0.35:
+        # several live outcomes that re-roll, with a depth budget of 2 (each branch has its own budget)
+        coin = ["h", [[gens.q(1), 1], [gens.q(2), 1]]]
+        src = rng.choice([["pool", [["val", gens.q(2)], coin]], ["repeat", 2, coin], ["pool", [coin, ["val", gens.q(2)]]]])
+        return ["subst", [[gens.q(2), ["reroll"]]], rng.random() < 0.5, 2, src]
     return ["subst", tbl, rng.random() < 0.5, rng.randint(0, 2), sub()]
 
 
